@@ -92,6 +92,8 @@ pub struct Walker<'a> {
     old_bin_var: Option<String>,
     /// inside a `BinEntry::Moved` arm of a retry loop: a retry must go on with what help_transfer returned (C11)
     in_moved_arm: bool,
+    /// locals that only ever hold objects allocated in this function (or null): stores through them do not touch published state
+    fresh: BTreeSet<String>,
 }
 
 fn struct_guard_field(idx: &SrcIndex, owner: &str) -> bool {
@@ -180,6 +182,46 @@ fn strip(e: &syn::Expr) -> &syn::Expr {
     }
 }
 
+/// names that are only ever bound to / assigned from an allocation made here (`Shared::boxed(..)`, `TreeNode::new(..)`,
+/// `Node::new(..)`, `Node::with_next(..)`), `Shared::null()`, or another such name
+fn fresh_names(b: &syn::Block) -> BTreeSet<String> {
+    #[derive(Default)]
+    struct V { binds: Vec<(String, String)> }
+    impl<'ast> syn::visit::Visit<'ast> for V {
+        fn visit_local(&mut self, l: &'ast syn::Local) {
+            if let (Some(n), Some(init)) = (match &l.pat { syn::Pat::Ident(i) => Some(i.ident.to_string()), syn::Pat::Type(t) => match &*t.pat { syn::Pat::Ident(i) => Some(i.ident.to_string()), _ => None }, _ => None }, &l.init) {
+                self.binds.push((n, toks(&*init.expr).replace(' ', "")));
+            }
+            syn::visit::visit_local(self, l);
+        }
+        fn visit_expr_assign(&mut self, a: &'ast syn::ExprAssign) {
+            if let syn::Expr::Path(p) = &*a.left {
+                if let Some(i) = p.path.get_ident() {
+                    self.binds.push((i.to_string(), toks(&*a.right).replace(' ', "")));
+                }
+            }
+            syn::visit::visit_expr_assign(self, a);
+        }
+    }
+    let mut v = V::default();
+    syn::visit::Visit::visit_block(&mut v, b);
+    let is_alloc = |t: &str| t.starts_with("Shared::boxed(") || t.starts_with("TreeNode::new(") || t.starts_with("Node::new(") || t.starts_with("Node::with_next(");
+    let mut cand: BTreeSet<String> = v.binds.iter().filter(|(_, t)| is_alloc(t)).map(|(n, _)| n.clone()).collect();
+    // names that are only assigned from candidates join; names with any other source leave
+    loop {
+        let before = cand.clone();
+        for (n, t) in &v.binds {
+            if cand.contains(t.as_str()) && v.binds.iter().filter(|(n2, _)| n2 == n).all(|(_, t2)| is_alloc(t2) || t2 == "Shared::null()" || cand.contains(t2.as_str()) || t2 == n) {
+                cand.insert(n.clone());
+            }
+        }
+        let bad: Vec<String> = cand.iter().filter(|n| v.binds.iter().filter(|(n2, _)| &n2 == n).any(|(_, t)| !(is_alloc(t) || t == "Shared::null()" || cand.contains(t.as_str())))).cloned().collect();
+        for n in bad { cand.remove(&n); }
+        if cand == before { break; }
+    }
+    cand
+}
+
 fn field_name(e: &syn::Expr) -> Option<String> {
     if let syn::Expr::Field(f) = strip(e) {
         if let syn::Member::Named(i) = &f.member {
@@ -213,6 +255,7 @@ impl<'a> Walker<'a> {
             fn_index,
             old_bin_var: None,
             in_moved_arm: false,
+            fresh: fresh_names(&f.block),
         }
     }
 
@@ -622,6 +665,22 @@ impl<'a> Walker<'a> {
                 return;
             }
         };
+        // a poisoning mutex: `let b = X.lock.lock().unwrap();` (or .expect(..)) — std::sync::Mutex::lock returns Err for ever once a
+        // thread panicked while holding the guard; user callbacks run under bin locks and may panic (C18), so an unwrapped
+        // LockResult makes every later operation on that bin panic.  The acquisition itself is walked as a lock acquisition.
+        if let syn::Expr::MethodCall(u) = &*init.expr {
+            if (u.method == "unwrap" || u.method == "expect") && matches!(&*u.receiver, syn::Expr::MethodCall(m) if m.method == "lock" && m.args.is_empty() && field_name(&m.receiver).as_deref() == Some("lock")) {
+                if let (syn::Expr::MethodCall(m), Some(n)) = (&*u.receiver, &name) {
+                    self.expr(&m.receiver, out);
+                    out.push(Sk::Raw("assert(false);   // OBL:C18:a_bin_lock_must_not_be_poisoned_by_a_panicking_callback".into()));
+                    out.push(Sk::Ev { name: "ev_lock".into(), args: vec![], line: l.span().start().line, src: toks(&*init.expr) });
+                    let d = self.scopes.len();
+                    self.locks.push((n.clone(), d));
+                    self.bind(n, Var { ty: None, kind: VK::Lock, fg: None });
+                    return;
+                }
+            }
+        }
         // lock acquisition: `let b = X.lock.lock();`
         if let syn::Expr::MethodCall(m) = &*init.expr {
             if m.method == "lock" && m.args.is_empty() && field_name(&m.receiver).as_deref() == Some("lock") {
@@ -1826,7 +1885,9 @@ impl<'a> Walker<'a> {
             }
             "store" | "swap" | "fetch_add" | "fetch_sub" => {
                 eval_args(self, out);
+                let through_fresh = leftmost_ident(&m.receiver).map(|n| self.fresh.contains(&n)).unwrap_or(false);
                 let ev = match self.write_kind(&m.receiver).as_deref() {
+                    Some("lk") if through_fresh && !self.owned => "ev_write_fresh",
                     Some("lk") => if self.owned { "ev_write_owned" } else { "ev_write_lk" },
                     Some("owned") => "ev_write_owned",
                     Some("ctl") => "ev_ctl_store",
